@@ -185,7 +185,7 @@ theorem ptT_self : PtSelf ptT := by
   rw [ptT_entries] at hm
   simp only [List.mem_cons, Prod.mk.injEq, List.not_mem_nil, or_false] at hm
   rcases hm with ⟨_, rfl⟩ | ⟨h, _⟩ | ⟨h, _⟩
-  · rfl
+  · decide
   · rw [sysPages_eq, sysSchema_eq] at h
     exact absurd h (by decide)
   · rw [sysPages_eq] at h
